@@ -366,7 +366,7 @@ def stream_shared(ctx):
         shape = None
         def rendered(ds):
             # the text between `/**` and `*/` as parse_docs lays it out
-            return ds[0] if (len(ds) == 1 and "\n" in ds[0]) else "\n".join(" *" + d for d in ds)
+            return ds[0] if (len(ds) == 1 and "\n" in ds[0]) else "\n" + "\n".join(" *" + d for d in ds) + "\n "
         if any("\n\n" in rendered(ds) for cd_, fd_ in meta[v] for ds in (cd_, fd_) if ds):
             shape = "blankline_in_blockdoc"
         elif any("export type " in x for x in alltext):
